@@ -1352,6 +1352,11 @@ fn race_case(rng: &mut Rng, out: &mut Out, ctl: &Arc<Ctl>, wl: &Arc<WriteLog>, d
     let l1 = *rng.pick(&[100usize, 3000, 9000]);
     let v1 = pattern(0x11, l1);
     let v2 = pattern(0x22, *rng.pick(&[100usize, 3000, 9000]));
+    // a second durable key whose generation is replaced or deleted in the same round: the victim's
+    // retirement is then not the only one the retirer has to deal with
+    let mate = format!("mate-{}", idx).into_bytes();
+    let with_mate = rng.chance(2, 3);
+    if with_mate { let _ = store.insert(&mate, &pattern(0x55, *rng.pick(&[100usize, 5000]))); }
     if store.insert(&key, &v1).is_err() || store.flush().is_err() { return; }
     let snap = store.verif_snapshot();
     let Some(r1) = snap.iter().find(|r| r.key == key) else { return };
@@ -1394,6 +1399,13 @@ fn race_case(rng: &mut Rng, out: &mut Out, ctl: &Arc<Ctl>, wl: &Arc<WriteLog>, d
     if deferred && parked {
         let st = store.clone();
         deferred_flush = Some(std::thread::spawn(move || { let _ = st.flush(); }));
+    }
+    let mut mate_now: Option<Vec<u8>> = None;
+    if with_mate {
+        mate_now = store.get(&mate).ok();
+        if rng.chance(1, 2) { let v = pattern(0x56, 300); if store.insert(&mate, &v).is_ok() { mate_now = Some(v); } }
+        else if store.delete(&mate).is_ok() { mate_now = None; }
+        out.count("race with a second retirement in the same round");
     }
     let mut fillers = vec![];
     for i in 0..rng.range(1, 4) {
@@ -1511,6 +1523,12 @@ fn race_case(rng: &mut Rng, out: &mut Out, ctl: &Arc<Ctl>, wl: &Arc<WriteLog>, d
         match store.get(k) {
             Ok(got) if &got == v => {}
             other => { if bad.is_none() { bad = Some(format!("filler key {} reads {:?} after the race", hex(k), other.map(|x| x.len()))); } }
+        }
+    }
+    if with_mate {
+        let got = store.get(&mate).ok();
+        if got != mate_now && bad.is_none() {
+            bad = Some(format!("the second key reads {:?} after the race, expected {:?}", got.map(|x| x.len()), mate_now.as_ref().map(|x| x.len())));
         }
     }
     let fin = store.get(&key);
